@@ -17,7 +17,9 @@ class ConvertibleTensor(tracer.Tracer):
 
     def __eq__(self, other):
         if isinstance(other, ConvertibleTensor):
-            return self.origin == other.origin and self.concrete == other.concrete and self.shape == other.shape
+            # Compare the frozen concretes (as __hash__ does): a raw comparison fails for values whose == is not a bool,
+            # e.g. a tensor factory with an array as default argument
+            return self.origin == other.origin and _freeze_value(self.concrete) == _freeze_value(other.concrete) and self.shape == other.shape
         return False
 
     def __hash__(self):
